@@ -280,6 +280,22 @@ def make_doc(rng, n_objs):
     return "\n".join(L), cases
 
 
+CONSTANT_PROGRAMS = [
+    ('{ let l = ["a", "b"]; l[0] = "c"; return l }', ["c", "b"]),
+    ('{ let l = ["a", "b"]; l[1] = "c"; l[0] = "d"; return l }', ["d", "c"]),
+    ('{ let l = ["a", "b"]; let m = l; m[0] = "c"; return m }', ["c", "b"]),
+    ('{ let l = ["a", "b"]; l[0] = "c"; return l[0] }', "c"),
+    ('{ let l = ["a", "b"]; l[1] = "c"; return l[0] + l[1] }', "ac"),
+    ('{ let l = ["a", "b"]; return l }', ["a", "b"]),
+    ('{ let s = "a"; s = "b"; return s }', "b"),
+    ('{ let s = "a"; { let s = "b"; } return s }', "a"),
+    ('{ const s = "a"; let t = s; t = t + "x"; return t }', "ax"),
+    ('{ let s = "a"; if (true) s = "b"; return s }', "b"),
+    ('{ let s = "a"; switch (1) { case 1: s = "b"; break; default: s = "c"; } return s }', "b"),
+    ('{ let s = "a"; console.log(s); return s + "z" }', "az"),
+]
+
+
 def run(tier, seed, replay=None):
     v = common.Verdict("C03", tier, seed)
     rng = common.rng_for(seed, "C03", tier)
@@ -306,6 +322,13 @@ def run(tier, seed, replay=None):
         src = "import qmluic.QtWidgets\nQWidget {\n VfWidget {\n  id: o0\n  sval: %s\n }\n}\n" % lit
         jobs.append({"id": "j%d" % len(jobs), "source": src, "modes": ["generate"], "want": ["ui"]})
         index.append((-1, ("o0", "sval", "str", ("lit", "str", denotes, lit), lit)))
+    # constant PROGRAMS (statement blocks over literals only): if the value is embedded, it is the value the block returns --
+    # assignments, element assignments and shadowing included
+    for text, denotes in CONSTANT_PROGRAMS:
+        prop, kind, e = ("slist", "stringlist", (denotes, True)) if isinstance(denotes, list) else ("sval", "str", ("lit", "str", denotes, text))
+        src = "import qmluic.QtWidgets\nQWidget {\n VfWidget {\n  id: o0\n  %s: %s\n }\n}\n" % (prop, text)
+        jobs.append({"id": "j%d" % len(jobs), "source": src, "modes": ["generate"], "want": ["ui"]})
+        index.append((-1, ("o0", prop, kind, e, text)))
     # operators outside the supported subset with a defined ECMAScript meaning: rejected, or embedded with that meaning
     for a in (-8, -1, -2147483648, -5, 5, 1024, 2147483647, 4294967295):
         for b in (0, 1, 3, 24, 28, 31):
